@@ -43,6 +43,16 @@ Theorem C13_filter_exact : forall pats ci dfa r o,
      forall us, run_op (Filter pats ci dfa r) (o, us) = run_op r (o, us)).
 Proof. exact filter_exact_full. Qed.
 
+Theorem C13_filter_case_sensitive_drops_iff_substring : forall pats name,
+  dropped pats false name <-> exists pat pre suf, In pat pats /\ name = pre ++ pat ++ suf.
+Proof. exact dropped_case_sensitive. Qed.
+
+Theorem C13_filter_case_insensitive_drops_iff_substring_up_to_ascii_case : forall pats name,
+  dropped pats true name <->
+  exists pat pre mid suf, In pat pats /\ name = pre ++ mid ++ suf /\
+    Forall2 (fun a b => a = b \/ (65 <= a <= 90 /\ b = a + 32) \/ (65 <= b <= 90 /\ a = b + 32))%N pat mid.
+Proof. exact dropped_case_insensitive. Qed.
+
 Theorem C13_case_folding_is_ascii_only : forall c,
   lower c = ascii_lower c /\ ascii_lower c = (if ((65 <=? c) && (c <=? 90))%N then c + 32 else c)%N.
 Proof. exact ascii_fold_only. Qed.
@@ -75,7 +85,7 @@ Proof. exact chosen_unique. Qed.
 Theorem C13_route_lookup_exact : forall routes k name,
   (forall i, route (build routes 0 tries0) k name = Some i <-> chosen routes k name i) /\
   (route (build routes 0 tries0) k name = None <-> forall i p, ~ candidate routes k name i p).
-Proof. intros routes k name. split; [intros i; apply route_some | apply route_none]. Qed.
+Proof. exact route_lookup_exact. Qed.
 
 Theorem C13_global_mask_redundant : forall routes k name,
   route (build routes 0 tries0) k name = get_ancestor (trie_for (build routes 0 tries0) k) name.
